@@ -3061,6 +3061,69 @@ fn is_numeric_ty(ty: &tast::Ty) -> bool {
     is_integer_ty(ty) || is_float_ty(ty)
 }
 
+/// Operand classes of the builtin operators. Constraint generation only equates the operand types
+/// with each other / with the result, so `-s` on a string or `p * p` on structs used to be accepted
+/// and reached the Go back end. Once the types of a file are final, every unary `-`, every
+/// `+ - * /` and every ordering comparison is looked at again: the operand must be numeric (`+`
+/// and the comparisons also take strings). Type variables (reported elsewhere when they stay
+/// unresolved) and type parameters (decided per instance) are left alone.
+pub(crate) fn check_operator_operand_classes(
+    hir_table: &hir::HirTable,
+    results: &crate::typer::results::TypeckResults,
+    diagnostics: &mut Diagnostics,
+) {
+    fn class_unknown(ty: &tast::Ty) -> bool {
+        matches!(ty, tast::Ty::TVar(_) | tast::Ty::TParam { .. })
+    }
+    let package = hir_table.package();
+    for idx in 0..hir_table.expr_count() {
+        let id = hir::ExprId {
+            pkg: package,
+            idx: idx as u32,
+        };
+        if results.expr_ty(id).is_none() {
+            continue;
+        }
+        let (symbol, allows_string, operands) = match hir_table.expr(id) {
+            hir::Expr::EUnary {
+                op: common_defs::UnaryOp::Neg,
+                expr,
+            } => ("-", false, vec![*expr]),
+            hir::Expr::EBinary { op, lhs, rhs } => {
+                let (symbol, allows_string) = match op {
+                    common_defs::BinaryOp::Add => ("+", true),
+                    common_defs::BinaryOp::Sub => ("-", false),
+                    common_defs::BinaryOp::Mul => ("*", false),
+                    common_defs::BinaryOp::Div => ("/", false),
+                    common_defs::BinaryOp::Less => ("<", true),
+                    common_defs::BinaryOp::Greater => (">", true),
+                    common_defs::BinaryOp::LessEq => ("<=", true),
+                    common_defs::BinaryOp::GreaterEq => (">=", true),
+                    _ => continue,
+                };
+                (symbol, allows_string, vec![*lhs, *rhs])
+            }
+            _ => continue,
+        };
+        for operand in operands {
+            let Some(ty) = results.expr_ty(operand) else {
+                continue;
+            };
+            if class_unknown(ty)
+                || is_numeric_ty(ty)
+                || (allows_string && matches!(ty, tast::Ty::TString))
+            {
+                continue;
+            }
+            super::util::push_error(
+                diagnostics,
+                format!("Operator {} cannot be applied to type {:?}", symbol, ty),
+            );
+            break;
+        }
+    }
+}
+
 impl Typer {
     fn parse_integer_literal_with_ty(
         &mut self,
